@@ -911,4 +911,22 @@ def wfTables (ts : List WTable) : Bool :=
   ts.all (fun t => isIdent t.name && t.entries.all (fun e => wfText e.2) && decide ((t.entries.map (·.1)).Nodup)) &&
   decide ((ts.map (·.name)).Nodup)
 
+/-! ## the file as `dump` writes it, line for line
+
+For a matrix without environment variables the file is: the fixed header, the `BU_:` line, the value tables, the frame section, and the
+sections of `writeCoreH` with the empty lines `dump` puts behind some of them. -/
+
+def dbcHeader : List Str := ["VERSION \"created by canmatrix\"".toList, [], [], "NS_ :".toList, [], "BS_:".toList, []]
+
+def gapStmt : FileStmt := .one .gap
+
+/-- every line of the file (the text is these lines, each followed by a line feed) -/
+def writeDbc (es : List WEcu) (ts : List WTable) (ds : List DefLine) (dds : List DefDefLine) (ga : List (Str × Str)) (fs : List WFrame) :
+    List Str :=
+  dbcHeader ++ [renderBu (es.map (·.name)), []] ++ writeStmts (ts.map fun t => .vt t.line) ++ [[]] ++ writeFrames (fs.map WFrame.block) ++ [[]] ++
+  writeFile ((fs.flatMap WFrame.txStmts ++ fs.flatMap WFrame.cmStmts ++ [gapStmt] ++ fs.flatMap WFrame.sigCmStmts ++ [gapStmt] ++ ecuCmStmts es ++ [gapStmt]) ++
+    ((defStmts ds ++ defdefStmts dds ++ ecuBaStmts es ++ [gapStmt] ++ globalBaStmts ga ++ [gapStmt]) ++
+     ((fs.flatMap WFrame.baStmts ++ [gapStmt] ++ fs.flatMap WFrame.sigBaStmts ++ [gapStmt]) ++
+      (fs.flatMap WFrame.valStmts ++ fs.flatMap WFrame.valtypeStmts ++ fs.flatMap WFrame.grpStmts ++ fs.flatMap WFrame.mulStmts))))
+
 end CanVerif.Dbc
